@@ -510,6 +510,170 @@ for cls_, f_ in (("BufferStore", "base/buffer_store.py"), ("FleetStore", "base/f
          "(n_items l + n_ready_items l)", kind="Z")
 
 
+# ---------------------------------------------------------------- the commit protocol of the node processes
+# after `yield self.env.any_of(L)`:   X = next((event for event in L if event.<flag>), None)
+#                                      idx = L.index(X)            [L.remove(X)]
+#                                      for event in L: [if event is not X:] event.resourcename.reserve_{put,get}_cancel(event)
+# regenerated as three Gallina functions over lists of abstract events (SrcFragments' pyev): which event is chosen, which
+# index is recorded, which events are withdrawn.
+def _blocks(fn):
+    """every statement list inside fn"""
+    for n in ast.walk(fn):
+        for f in ("body", "orelse", "finalbody"):
+            b = getattr(n, f, None)
+            if isinstance(b, list) and b and isinstance(b[0], ast.stmt):
+                yield b
+
+
+def _pick_of(stmt):
+    """`X = next((event for event in L if event.<flag>), None)` -> (X source, L source, var, flag) or None"""
+    if not (isinstance(stmt, ast.Assign) and len(stmt.targets) == 1 and isinstance(stmt.value, ast.Call)):
+        return None
+    c = stmt.value
+    if not (isinstance(c.func, ast.Name) and c.func.id == "next" and len(c.args) == 2 and isinstance(c.args[0], ast.GeneratorExp)):
+        return None
+    g = c.args[0]
+    if len(g.generators) != 1 or not isinstance(g.elt, ast.Name) or not isinstance(g.generators[0].target, ast.Name):
+        return None
+    gen = g.generators[0]
+    if gen.target.id != g.elt.id or len(gen.ifs) != 1:
+        return None
+    t = gen.ifs[0]
+    if not (isinstance(t, ast.Attribute) and isinstance(t.value, ast.Name) and t.value.id == g.elt.id):
+        raise Unsupported("selection test is not `event.<flag>`: " + ast.unparse(t))
+    if not (isinstance(c.args[1], ast.Constant) and c.args[1].value is None):
+        raise Unsupported("default of next() is not None")
+    return ast.unparse(stmt.targets[0]), ast.unparse(gen.iter), g.elt.id, t.attr
+
+
+def _cancel_call(node, var):
+    """event.resourcename.reserve_put_cancel(event) -> 'put' / 'get'"""
+    if isinstance(node, ast.Call) and isinstance(node.func, ast.Attribute) and node.func.attr in ("reserve_put_cancel", "reserve_get_cancel") \
+            and ast.unparse(node.func.value) == var + ".resourcename" and len(node.args) == 1 and not node.keywords \
+            and ast.unparse(node.args[0]) == var:
+        return node.func.attr[8:11]
+    return None
+
+
+def _withdraw_loop(loop, X):
+    """the body of `for event in L:` -> (guarded by `event is not X`?, side); anything the loop does besides cancelling
+    (in particular any change of the list it walks) is unsupported"""
+    var = loop.target.id
+    found = []
+
+    def walk(stmts, guarded):
+        for st in stmts:
+            if isinstance(st, ast.Expr) and isinstance(st.value, ast.Call):
+                side = _cancel_call(st.value, var)
+                if side:
+                    found.append((guarded, side))
+                    continue
+                if isinstance(st.value.func, ast.Name) and st.value.func.id == "print":
+                    continue
+                raise Unsupported("call in the withdrawal loop: " + ast.unparse(st)[:80])
+            if isinstance(st, ast.Assign) and len(st.targets) == 1 and isinstance(st.targets[0], ast.Name):
+                if isinstance(st.value, ast.Constant):
+                    continue
+                side = _cancel_call(st.value, var)
+                if side:
+                    found.append((guarded, side))
+                    continue
+                raise Unsupported("assignment in the withdrawal loop: " + ast.unparse(st)[:80])
+            if isinstance(st, ast.If) and not st.orelse:
+                src = ast.unparse(st.test)
+                if src == "%s is not %s" % (var, X):
+                    walk(st.body, True)
+                    continue
+                if isinstance(st.test, ast.UnaryOp) and isinstance(st.test.op, ast.Not) and isinstance(st.test.operand, ast.Name) \
+                        and all(isinstance(x, ast.Raise) for x in st.body):
+                    continue            # `if not cancelled: raise ...`
+                raise Unsupported("test in the withdrawal loop: " + src[:80])
+            if isinstance(st, (ast.Raise, ast.Pass)):
+                continue
+            raise Unsupported("statement in the withdrawal loop: " + ast.unparse(st)[:80])
+    walk(loop.body, False)
+    if len(found) != 1:
+        raise Unsupported("%d cancel calls in the withdrawal loop" % len(found))
+    return found[0]
+
+
+def commit_sites(tree, cls, meth, lst, need_withdraw=True):
+    """all commit sequences over the list <lst> in <cls>.<meth>: [(pick, index, withdraw, side)] as Gallina texts"""
+    fn = find(tree, cls, meth)
+    out = []
+    for blk in _blocks(fn):
+        for k, st in enumerate(blk):
+            pk = _pick_of(st)
+            if not pk or pk[1] != lst:
+                continue
+            X, L, var, flag = pk
+            if flag not in ("triggered", "processed", "ok"):
+                raise Unsupported("selection by event.%s" % flag)
+            pick = "find (fun event => ev_%s event) l" % flag
+            cur, index, withdraw, side = "l", None, None, None
+            for st2 in (blk[k + 1:] if need_withdraw else []):
+                src = ast.unparse(st2)
+                if any(isinstance(n, ast.Call) and ast.unparse(n) == "%s.index(%s)" % (L, X) for n in ast.walk(st2)) \
+                        and not isinstance(st2, (ast.For, ast.While, ast.If)):
+                    if index is None:
+                        index = "pyindex x (%s)" % cur
+                    continue
+                if isinstance(st2, ast.Expr) and src == "%s.remove(%s)" % (L, X):
+                    cur = "pyremove x (%s)" % cur
+                    continue
+                if isinstance(st2, ast.For) and isinstance(st2.target, ast.Name) and ast.unparse(st2.iter) == L:
+                    guarded, side = _withdraw_loop(st2, X)
+                    withdraw = ("filter (fun event => negb (ev_is event x)) (%s)" % cur) if guarded else "(%s)" % cur
+                    break
+                # nothing else may touch the list between the choice and the withdrawal
+                for n in ast.walk(st2):
+                    if isinstance(n, ast.Call) and isinstance(n.func, ast.Attribute) and ast.unparse(n.func.value) == L \
+                            and n.func.attr in ("remove", "pop", "append", "insert", "clear", "sort", "reverse", "extend"):
+                        raise Unsupported("the event list is changed before the withdrawal: " + src[:80])
+                    if isinstance(n, (ast.Assign, ast.AugAssign)) and any(ast.unparse(t) == L for t in (n.targets if isinstance(n, ast.Assign) else [n.target])):
+                        raise Unsupported("the event list is reassigned before the withdrawal: " + src[:80])
+            out.append((pick, index, withdraw, side))
+    if not out:
+        raise Unsupported("no `next((event for event in %s if ...), None)` in %s.%s" % (lst, cls, meth))
+    if any(o != out[0] for o in out):
+        raise Unsupported("%s.%s: the commit sequences over %s differ from each other" % (cls, meth, lst))
+    return out[0]
+
+
+def commit_frag(tree, cls, meth, lst, what, side=None):
+    pick, index, withdraw, sd = commit_sites(tree, cls, meth, lst, need_withdraw=(what != "pick" or side is not None))
+    if what == "pick":
+        return pick
+    if what == "index":
+        if index is None:
+            raise Unsupported("no `%s.index(chosen)` after the choice" % lst)
+        return index
+    if withdraw is None:
+        raise Unsupported("no withdrawal loop over %s after the choice" % lst)
+    if sd != side:
+        raise Unsupported("withdrawal calls reserve_%s_cancel, expected reserve_%s_cancel" % (sd, side))
+    return withdraw
+
+
+COMMIT_SITES = [("Machine_worker", "nodes/machine.py", "Machine", "worker", "out_edge_events", "put", "guard"),
+                ("Splitter_worker", "nodes/splitter.py", "Splitter", "worker", "out_edge_events", "put", "guard"),
+                ("Combiner_worker", "nodes/combiner.py", "Combiner", "worker", "out_edge_events", "put", "guard"),
+                ("Source_behaviour", "nodes/source.py", "Source", "behaviour", "self.out_edge_events", "put", "remove"),
+                ("Machine_behaviour", "nodes/machine.py", "Machine", "behaviour", "self.in_edge_events", "get", "guard"),
+                ("Splitter_behaviour", "nodes/splitter.py", "Splitter", "behaviour", "self.in_edge_events", "get", "guard"),
+                ("Sink_behaviour", "nodes/sink.py", "Sink", "behaviour", "self.in_edge_events", "get", "remove"),
+                ("Combiner_gather", "nodes/combiner.py", "Combiner", "behaviour", "reservation_tokens", None, None)]
+for nm, f, cls, meth, lst, side, form in COMMIT_SITES:
+    frag("%s_pick" % nm, f, lambda t, c=cls, m=meth, l=lst, sd=side: commit_frag(t, c, m, l, "pick", sd),
+         "find (fun event => ev_triggered event) l", kind="sig:(l : list pyev) : option pyev")
+    if side:
+        frag("%s_index" % nm, f, lambda t, c=cls, m=meth, l=lst: commit_frag(t, c, m, l, "index"),
+             "pyindex x (l)", kind="sig:(l : list pyev) (x : pyev) : nat")
+        frag("%s_withdraw" % nm, f, lambda t, c=cls, m=meth, l=lst, sd=side: commit_frag(t, c, m, l, "withdraw", sd),
+             "filter (fun event => negb (ev_is event x)) (l)" if form == "guard" else "(pyremove x (l))",
+             kind="sig:(l : list pyev) (x : pyev) : list pyev")
+
+
 def belt_gate(tree):
     return GTr().grants(find(tree, "BeltStore", "_do_reserve_put").body)
 
@@ -521,10 +685,15 @@ def main():
     a = ap.parse_args()
     src = os.path.join(a.repo, "src", "factorysimpy")
     out = ["(* GENERATED by translator/py_to_gallina.py from %s -- do not edit, never committed *)" % src,
-           "From Coq Require Import ZArith Bool.", "Open Scope Z_scope.",
+           "From Coq Require Import ZArith Bool List.", "Open Scope Z_scope.",
            "Record lens := { " + "; ".join("n_%s : Z" % f for f in FIELDS) + "; capacity : Z }.",
            "Record glens := { g_n_reservations_put : Z; g_n_items : Z; g_n_ready_items : Z; g_cap : Z; g_acc : bool; g_noacc : bool; "
-           "g_one : bool; g_tob_last : Z; g_tob_first : Z; g_u : Z; g_D : Z; g_now : Z; g_entry_last : Z }.", ""]
+           "g_one : bool; g_tob_last : Z; g_tob_first : Z; g_u : Z; g_D : Z; g_now : Z; g_entry_last : Z }.",
+           "(* abstract SimPy events for the commit protocol of the node processes: identity and the two flags *)",
+           "Record pyev := { ev_id : nat; ev_triggered : bool; ev_processed : bool; ev_ok : bool }.",
+           "Definition ev_is (a b : pyev) : bool := Nat.eqb (ev_id a) (ev_id b).",
+           "Fixpoint pyremove (x : pyev) (l : list pyev) : list pyev := match l with nil => nil | cons y r => if ev_is y x then r else cons y (pyremove x r) end.",
+           "Fixpoint pyindex (x : pyev) (l : list pyev) : nat := match l with nil => O | cons y r => if ev_is y x then O else S (pyindex x r) end.", ""]
     report = {}
     trees = {}
     for fr in FRAGS:
